@@ -80,7 +80,22 @@ def run(F, R, tier):
         ok = ci.get("k") == "MethodCall" and ci["name"] == "filter_map" and "versions" in expr_text(ci["recv"])
         yk = None
         cached = False
-        if ok:
+        if not ok and ci.get("k") == "MethodCall" and ci["name"] == "map" and peel(ci["recv"]).get("k") == "MethodCall" and peel(ci["recv"])["name"] == "filter" and "versions" in expr_text(peel(ci["recv"])["recv"]):
+            # `.filter(|(_, info)| info.yanked == <bool>).map(..)`: the bool may be a parameter of an extracted helper bound to a literal
+            fc = peel(peel(ci["recv"])["args"][0])
+            fv = peel(fc["body"]["value"]) if fc.get("k") == "Closure" else {}
+            if fv.get("k") == "Binary" and fv["op"] == "==":
+                for a_, b_ in ((fv["l"], fv["r"]), (fv["r"], fv["l"])):
+                    if peel_value(a_).get("k") == "Field" and peel_value(a_)["field"] == "yanked":
+                        lits = [peel(y).get("v") for y in through_locals(b_) if peel(y).get("k") == "Lit"]
+                        if lits and isinstance(lits[-1], bool):
+                            yk = lits[-1]
+                            ok = True
+            elif fv.get("k") == "Field" and fv["field"] == "yanked":
+                yk, ok = True, True
+            elif fv.get("k") == "Unary" and fv["op"] == "!" and peel(fv["e"]).get("field") == "yanked":
+                yk, ok = False, True
+        elif ok:
             clo = peel(ci["args"][0])
             ifs = [n for n in walk(clo) if n["k"] == "If"]
             if ifs:
